@@ -51,6 +51,13 @@ P = {
         "assumptions": ["power loss / torn writes are not simulated (the property speaks of flush interval, not crashes)", "after an external fault, events sent up to 2 s after it may be missing; everything later must be logged"],
         "stall_s": 120,
     },
+    "C10": {
+        "runs": {"quick": 3000, "thorough": 300000},
+        "budget_s": {"quick": 150, "thorough": 3000},
+        "rule": "one scenario = one rate-limited UDP service (tftp, memcached, snmp, counterstrike) receiving grammar-derived request datagrams (incl. multi-command memcached datagrams) from 1-3 source IPs over 1-3 source ports each, bursts of 1-200, fake-clock gaps between 0 and 25 minutes, optionally several datagrams released in one step; responses are the datagrams the simulated kernel carried back, timestamped on the fake clock; run again with the other sources' datagrams removed; distinct = distinct trace digest; non-trivial = more than 4 requests in the scenario",
+        "components": comp(real=["services tftp, memcached, snmp, counterstrike + services.Limiter (x/time/rate on the fake clock)", "listener/socket UDP path, DummyUDPConn"]),
+        "assumptions": ["window strictly shorter than the interval (10 min - 1 ms): a token bucket of burst 4 refilling 1 per 10 min cannot exceed 4 in it"],
+    },
 }
 
 def get(prop):
